@@ -19,7 +19,7 @@ static char arr[FILTERED_STR_LEN];
 
 void harness(void) {
   unsigned long off = IN(0), len = IN(1), pos = IN(2);
-  ASSUME(len <= LEAFLEN && off >= 1 && off + len < FILTERED_STR_LEN && pos < NUM_OF_OPD);
+  ASSUME(len <= LEAFLEN && off >= 1 && off < FILTERED_STR_LEN && off + len < FILTERED_STR_LEN && pos < NUM_OF_OPD);
   for (int i = 0; i < FILTERED_STR_LEN; i++) {
     unsigned long b = IN(4 + i);
     ASSUME(b <= 0x7e && b != 0);          /* the filter passes printable ASCII only */
